@@ -466,6 +466,92 @@ pub fn run_c11_one(tier: &str, rng: &mut Rng, model: &Model, rep: &mut Report, c
     run_section(rep, model, "cgr-one", cases, &impl_cgr, &judge);
 }
 
+/// The text of a coordinate: `format!("{}", x)` (what the CGR writers print) against the Lean model of `Display`
+/// (`KT.f64Display`: shortest digits that read back as the same double, positional notation), and the text must read back as
+/// the same double (`KT.display_roundtrip`).
+pub fn run_display(tier: &str, rng: &mut Rng, model: &Model, rep: &mut Report, corpus_lines: &[String]) {
+    if sharded() {
+        return;
+    }
+    rep.rules.push("coordinate text: format!(\"{}\", x) of the real code vs KT.f64Display for doubles drawn as CGR coordinates (dyadic fractions of S), random bit patterns over every exponent, boundaries (powers of two and ten, subnormals, the largest finite double, integers around 2^53), and doubles parsed from short decimal strings; each text must also parse back to the same bits".into());
+    let mut batches: Vec<(Vec<u64>, bool)> = corpus_lines.iter().filter(|l| l.starts_with("display ")).map(|l| (l[8..].trim().split(',').filter_map(|x| x.parse().ok()).collect(), true)).collect();
+    if tier != "replay" {
+        let mut vals: Vec<u64> = vec![0, 1, 2, (1u64 << 52) - 1, 1u64 << 52, (1u64 << 52) + 1, f64::MAX.to_bits(), f64::MIN_POSITIVE.to_bits(), 1.0f64.to_bits(), 0.1f64.to_bits(), 0.3f64.to_bits(), 1e23f64.to_bits(), 9007199254740992f64.to_bits(), 9007199254740993f64.to_bits(), 5e-324f64.to_bits(), 1e21f64.to_bits(), 1e-7f64.to_bits(), 123456789012345680f64.to_bits()];
+        for e in -323..=308i32 {
+            if let Ok(x) = format!("1e{}", e).parse::<f64>() {
+                vals.push(x.to_bits());
+                vals.push(x.to_bits() + 1);
+                vals.push(x.to_bits() - 1);
+            }
+        }
+        for e in 1..=2046u64 {
+            vals.push(e << 52);
+            vals.push((e << 52) - 1);
+        }
+        let n = if tier == "thorough" { 60_000 } else { 4_000 };
+        for _ in 0..n {
+            let b = match rng.below(5) {
+                0 => {
+                    // a CGR coordinate: S * m / 2^j
+                    let s = *rng.pick(&[1u64, 2, 3, 16, 1000, 1 << 20, 49]) as f64;
+                    let j = rng.range(1, 60) as i32;
+                    let m = rng.below(1u64 << j.min(53)) as f64;
+                    (s * m / 2f64.powi(j)).to_bits()
+                }
+                1 => (rng.below(2047) << 52) | rng.below(1 << 52),
+                2 => (rng.below(2047) << 52) | (rng.below(1 << 12) << rng.below(41)),
+                3 => {
+                    // a short decimal
+                    let digits = rng.range(1, 17) as usize;
+                    let d: String = (0..digits).map(|i| if i == 0 { (b'1' + rng.below(9) as u8) as char } else { (b'0' + rng.below(10) as u8) as char }).collect();
+                    let e = rng.range(0, 60) as i32 - 30;
+                    format!("{}e{}", d, e).parse::<f64>().unwrap_or(1.0).to_bits()
+                }
+                _ => (rng.below(1u64 << 54) as f64).to_bits(),
+            };
+            vals.push(b);
+        }
+        for ch in vals.chunks(40) {
+            batches.push((ch.to_vec(), false));
+        }
+    }
+    for (bs, from_corpus) in batches {
+        if bs.is_empty() {
+            continue;
+        }
+        let section = if from_corpus { "corpus-display" } else { "display" };
+        let req = format!("display {}", bs.iter().map(|b| b.to_string()).collect::<Vec<_>>().join(","));
+        progress(&req);
+        let ans = model.query(&[req.clone()]);
+        let f: Vec<&str> = ans[0].split('|').collect();
+        let texts: Vec<Vec<u8>> = if f.len() >= 3 && f[0] == "ok" { f[1].split(',').map(unhex).collect() } else { vec![] };
+        let rts: Vec<&str> = if f.len() >= 3 { f[2].split(',').collect() } else { vec![] };
+        for (i, &b) in bs.iter().enumerate() {
+            rep.evaluations += 1;
+            let x = f64::from_bits(b);
+            let imp = format!("{}", x);
+            let one = format!("display {}", b);
+            rep.count(&format!("{}/{}", section, if x == 0.0 { "zero" } else if x < f64::MIN_POSITIVE { "subnormal" } else if x < 1.0 { "below-one" } else if x.fract() == 0.0 { "integral" } else { "mixed" }), 1);
+            if imp.parse::<f64>().map(|y| y.to_bits()) != Ok(b) {
+                if rep.fail_count(section, "spec") < 2 {
+                    rep.push_fail(section, format!("double with bit pattern {}", b), one.clone(), Fail { class: "spec", detail: format!("the printed coordinate \"{}\" does not read back as the same double", trunc(&imp, 120)), theorem: "KT.display_roundtrip", impl_out: trunc(&imp, 400), model_out: String::new() }, 0);
+                }
+                continue;
+            }
+            let mt = texts.get(i).cloned().unwrap_or_default();
+            if mt != imp.as_bytes() || rts.get(i) != Some(&"1") {
+                if rep.fail_count(section, "model") < 2 {
+                    rep.push_fail(section, format!("double with bit pattern {}", b), one, Fail { class: "model", detail: "format!(\"{}\", x) and KT.f64Display differ (or the model's text does not read back)".into(), theorem: "", impl_out: trunc(&imp, 400), model_out: trunc(&show(&mt), 400) }, 0);
+                }
+                continue;
+            }
+            if imp.len() >= 3 {
+                rep.nontrivial.insert(format!("display {}", b));
+            }
+        }
+    }
+}
+
 // ---------------------------------------------------------------- C12
 
 pub fn run_c12_one(tier: &str, rng: &mut Rng, model: &Model, rep: &mut Report, corpus: Vec<Case>) {
